@@ -36,7 +36,7 @@ REAL = ["JASM main(), argparse, logging configuration, log files (real files in 
         "objdump + subprocess.run", "a sample of invocations re-run as real `python -m jasm.main` processes (calibration)"]
 STUB = ["process boundary: argv / stdout / stderr / exit status emulated in a forked child", "injected faults (errno at open/mkdir, failing peer, regex deadline)"]
 ASSUMPTIONS = [
-    "the terminal log format is '<asctime> - <logger> - <LEVEL> - <message>' (lines are parsed with a regex anchored on it)",
+    "result lines are recognised by their message ('Matched address: <x>' to the end of the line, 'RESULT: Pattern found|not found'), on stderr or stdout, whatever prefix the log format puts before them",
     "a non-zero exit status on success is not demanded to be absent; what is demanded: usage errors and failing operations exit non-zero, "
     "and whenever the library returns, the CLI prints exactly that verdict and those addresses",
     "under a log-file I/O fault the invocation may either fail (exit != 0) or report exactly the library's result",
@@ -263,7 +263,7 @@ def calibrate(files, op, got, runner):
         p = subprocess.run([sys.executable, "-m", "jasm.main"] + op["argv"], cwd=root, env=env, capture_output=True, text=True, timeout=120)
     finally:
         runner.materialise(files)
-    verdict, addrs, _n = simchild.parse_cli_stderr(p.stderr)
+    verdict, addrs, _n = simchild.parse_cli_stderr(p.stderr + "\n" + p.stdout)
     real = [p.returncode, verdict, addrs]
     sim = [got[1], got[2], got[3]]
     if real != sim:
